@@ -1486,10 +1486,13 @@ class IndexHierarchy(IndexBase):
         flat = self.flat().values
         mask = sel == length
         if not mask.any():
-            return flat[sel] #type: ignore [no-any-return]
+            post = flat[sel]
+            if post.__class__ is np.ndarray:
+                post.flags.writeable = False
+            return post #type: ignore [no-any-return]
 
         post = np.empty(len(sel), dtype=object)
-        sel[mask] = 0 # set out of range values to zero
+        sel = np.where(mask, 0, sel) # set out of range values to zero
         post[:] = flat[sel]
         post[mask] = fill_value
         post.flags.writeable = False
